@@ -4,9 +4,11 @@ operations.  Implementation level: real local_mesh_refiner::refine_mesh passes (
 random edge-length bands, swapping on and off, repeated passes) observed through hook H6; TLC (MeshTrace, configuration
 MeshTraceC11) validates every operation and every pass record: momentum conservation, survivors fixed, new node at the
 midpoint, label inheritance, selectivity, volume/area neutrality of splits, idempotence on conforming meshes and the
-operation bound -- together with the C01 predicates."""
+operation bound -- together with the C01 predicates.  Whole passes on lattice cells are validated against spec/Refine/RefinePass
+(the work set and the loop bound; see refine_pass.py), which TLC also explores in every order the work set can be emptied."""
 import json, os, random, shutil
 import vlib
+import refine_pass
 from vlib import Check, ModelError
 
 SPEC = os.path.join(vlib.ROOT, "spec", "Mesh")
@@ -16,7 +18,7 @@ C01_INV = {"P_NoThrow", "P_NoRepeat", "P_LiveNodes", "P_Closed", "P_Euler", "P_S
 
 def run(tier, seed, replay=None):
     chk = Check("C11", tier, seed)
-    bdir = vlib.build("m1d0", ["refine_driver"])
+    bdir = vlib.build("m1d0", ["refine_driver", "pass_driver"])
     work = vlib.scratch("c11")
     rnd = random.Random(seed)
     if replay:
@@ -92,6 +94,8 @@ def run(tier, seed, replay=None):
         chk.cov["controls_run"], chk.cov["controls_rejected"] = 3, rej
         if rej != 3:
             raise ModelError("negative controls: %d of 3 rejected: %r" % (rej, cbad))
+        # whole passes on lattice cells against spec/Refine/RefinePass (work set, loop bound), every order on small cells
+        refine_pass.stage(chk, tier, seed, rnd, bdir, work)
     chk.assumptions += ["numeric facts (momentum sums to 1e-12 relative, bitwise position equality, squared lengths against the band, volume/area to "
                         "64e-12 relative) are evaluated by the C++ driver with formulas independent of the refiner and logged as booleans; TLC requires them",
                         "termination is observed (every traced pass returned or threw within the time limit), not proved",
